@@ -135,19 +135,21 @@ def align_quats(types, exp, got):
 
 
 def first_divergence(*trajs):
-  """first step at which some trajectory has a non-finite entry or |qd| > 1e4 (None: never)"""
+  """first step at which some trajectory has |qd| > 1e4 (None: never).  The property counts such
+  trajectories and compares them only up to that step."""
   T = trajs[0]['qd'].shape[0]
   for k in range(T):
     for o in trajs:
-      row = np.concatenate([o[f][k].reshape(-1) for f in FIELDS])
-      if not np.all(np.isfinite(row)) or (o['qd'][k].size and np.max(np.abs(o['qd'][k])) > DIVERGED):
+      v = o['qd'][k]
+      if v.size and np.nanmax(np.abs(v)) > DIVERGED:
         return k
   return None
 
 
 def compare(types, exp, got, tol_init, tol_step):
   """compare two observed trajectories step by step; returns (mismatch | None, diverged_at, worst)
-  where mismatch = dict(step, field, index, expected, got, err, scale)"""
+  where mismatch = dict(step, field, index, expected, got, err, scale).  A non-finite value before
+  any divergence is a mismatch (a NaN is not the transform / permutation / part of anything)."""
   got = align_quats(types, exp, got)
   div = first_divergence(exp, got)
   T = exp['qd'].shape[0] if div is None else div
@@ -158,8 +160,13 @@ def compare(types, exp, got, tol_init, tol_step):
       a, b = exp[f][k], got[f][k]
       if a.size == 0:
         continue
-      scale = 1.0 + max(np.max(np.abs(a)), np.max(np.abs(b)))
       d = np.abs(a - b)
+      bad = ~np.isfinite(d)
+      if bad.any():
+        idx = np.unravel_index(int(np.argmax(bad)), d.shape)
+        return (dict(step=k, field=f, index=[int(i) for i in idx], expected=float(a[idx]), got=float(b[idx]),
+                     err=1e300, scale=1.0, tol=tol, nonfinite=True), div, 1e300)
+      scale = 1.0 + max(np.max(np.abs(a)), np.max(np.abs(b)))
       err = float(np.max(d))
       worst = max(worst, err / scale / tol)
       if err > tol * scale:
@@ -280,6 +287,11 @@ COMPILES = [0]
 def _setup():
   import jax
   jax.config.update('jax_enable_x64', True)
+  # the cost of this check is XLA compilation (one program per (document, pipeline)); the expensive
+  # optimisation passes only change round-off, which the tolerances absorb.  VERIF_C05_XLA_OPT=1
+  # compiles with the default optimisation level.
+  if os.environ.get('VERIF_C05_XLA_OPT') != '1':
+    jax.config.update('jax_disable_most_optimizations', True)
 
 
 class Runner:
@@ -409,6 +421,21 @@ def eval_perm(case):
   return None, info
 
 
+def limit_active(r, o, upto):
+  """does some joint coordinate violate its limit at a step < upto (the states the constraint
+  solver of the compared steps saw)?"""
+  if r.sys.dof.limit is None:
+    return False
+  lo, hi = (np.asarray(v, dtype=np.float64) for v in r.sys.dof.limit)
+  for t, (a, wq, b, wv) in zip(r.types, link_slices(r.types)):
+    if t == 'f':
+      continue
+    q = o['q'][:max(1, upto), a:a + wq]
+    if np.any(q < lo[b:b + wv]) or np.any(q > hi[b:b + wv]):
+      return True
+  return False
+
+
 def eval_merge(case):
   ra, rb, rab = runner(case['xml_a']), runner(case['xml_b']), runner(case['xml_ab'])
   pipe, n = case['pipeline'], case['nsteps']
@@ -430,9 +457,15 @@ def eval_merge(case):
             f'{mis["field"]}{mis["index"]}: alone {mis["expected"]!r} merged {mis["got"]!r} (|err| {mis["err"]:.3e}); '
             f'link_types {ra.types}+{rb.types}, limits: A {ra.sys.dof.limit is not None} B {rb.sys.dof.limit is not None}')
     la, lb = ra.sys.dof.limit is not None, rb.sys.dof.limit is not None
-    # circumstance of defect D4 (positional/joints.py pad_x_dof): a part without any joint limit
-    # (`dof.limit is None`) merged with a part that has one
-    key = f'merge:{pipe}:limit-none-part' if la != lb else f'merge:{pipe}'
+    key = f'merge:{pipe}'
+    if la != lb:
+      # circumstance of defect D4 (positional/joints.py pad_x_dof): a part without any joint limit
+      # (`dof.limit is None`) merged with a part that has one
+      key = f'merge:{pipe}:limit-none-part'
+    elif pipe == 'generalized' and limit_active(ra, oa, mis['step']) and limit_active(rb, ob, mis['step']):
+      # circumstance of finding F-C05-1: constraint.force solves ONE truncated projected-gradient
+      # problem over the limit constraints of all parts (global step size and stopping rule)
+      key = 'merge:generalized:limits-active-in-both-parts'
     return dict(key=key, what=what, mismatch=mis), info
   return None, info
 
